@@ -124,8 +124,9 @@ type Obs struct {
 	CoreID      string
 	Trail       []string
 	NodeNil     bool
-	RawPath     string // r.URL.RawPath as the handler sees it
-	Pattern     string // route.Node().Pattern()
+	Info        []string // informational responses as sent
+	RawPath     string   // r.URL.RawPath as the handler sees it
+	Pattern     string   // route.Node().Pattern()
 	Methods     []string
 	MethodsLive []string // not a copy: what Node().Methods() returned
 	Allow       string   // route.Node().AllowHeader()
@@ -162,6 +163,7 @@ type Writer struct {
 	SentH  http.Header
 	Body   []byte
 	Writes int
+	Info   []string // informational (1xx) responses sent before the final one: "103 <headers at that moment>"
 }
 
 func NewWriter() *Writer { return &Writer{H: http.Header{}} }
@@ -169,6 +171,19 @@ func NewWriter() *Writer { return &Writer{H: http.Header{}} }
 func (w *Writer) Header() http.Header { return w.H }
 
 func (w *Writer) WriteHeader(code int) {
+	if code >= 100 && code <= 199 && code != 101 {
+		// net/http sends an informational response at once, with the headers as they are now, and goes on:
+		// the final status and headers are still open
+		if !w.Sent {
+			var ks []string
+			for k, vs := range w.H {
+				ks = append(ks, k+"="+strings.Join(vs, ","))
+			}
+			sort.Strings(ks)
+			w.Info = append(w.Info, fmt.Sprintf("%d %s", code, strings.Join(ks, ";")))
+		}
+		return
+	}
 	if !w.Sent {
 		w.Sent = true
 		w.Status = code
@@ -278,7 +293,6 @@ func Call(w http.ResponseWriter, r *http.Request, route types.Route, h *H) {
 	}
 }
 
-
 func run(w http.ResponseWriter, r *http.Request, o *Obs, h *H) {
 	if h.Inner != nil {
 		if f := o.Fault; f != nil && f.Site == "mw:"+h.MW+":pre" {
@@ -314,6 +328,10 @@ func run(w http.ResponseWriter, r *http.Request, o *Obs, h *H) {
 				w.Header().Set(s.K, s.V)
 			case "Del":
 				w.Header().Del(s.K)
+			case "Mut": // edits the value slice of a header in place instead of calling Set
+				if vs := w.Header()[s.K]; len(vs) > 0 {
+					vs[0] = s.V
+				}
 			case "Panic":
 				panic("harness: handler program panics")
 			case "Nest":
@@ -414,6 +432,7 @@ func Serve(s http.Handler, q Req) *Obs {
 	o.Status = w.Status
 	o.Header = w.SentH
 	o.Body = w.Body
+	o.Info = w.Info
 	o.Live = w.H
 	return o
 }
